@@ -73,7 +73,11 @@ def gen_layer(rng):
         for _ in range(rng.choice([0, 1, 1, 2])):
             ps = [u8((sid + 0x40) & 0xFF)]
             r = rng.random()
-            if sub is not None and r < 0.6:
+            if sub is not None and r < 0.1:
+                # mirrors the sub-function and the first variable byte with ONE parameter: it starts inside the constant part of
+                # the request and ends behind it (the constant prefix of the response ends in front of it)
+                ps.append(cc.param(None, dict(k="matchreq", rqpos=1, len=2)))
+            elif sub is not None and r < 0.6:
                 ps.append(cc.param(None, dict(k="matchreq", rqpos=1, len=1)))
             elif sub is not None and r < 0.8:
                 ps.append(u8(sub))
@@ -482,7 +486,7 @@ def main(argv=None):
         ck.hist("outcome", "ok" if impl[0] == 0 else impl[1])
         ck.hist("n_services", len(L["services"]))
         rep = {"layer": cc.to_json(L), "msg": cc.to_json(bytes(m)), "rq": None if rq is None else cc.to_json(bytes(rq))}
-        if impl[:2] in ([-1, 5], [-1, 8], [-1, 4]):
+        if impl[:2] in ([-1, 5], [-1, 8], [-1, 4], [-1, 1]):  # (an EncodeError out of decoding is no decode error either)
             ck.violation(f"DiagLayer.decode raised {impl} for message {bytes(m).hex()}", rep)
             continue
         if rq is None:
